@@ -546,9 +546,30 @@ type MonC05 struct{ baseMon }
 
 func NewMonC05() *MonC05 { m := &MonC05{}; m.init("C05"); return m }
 
+// tokenEventsNotReceived: a token event for the connection of an HTTP request
+// that is still being served must reach the gateway (the connection listens to
+// its subject until the request is answered): the token most recently set is
+// the one the following requests carry.
+func tokenEventsNotReceived(w *World) []Violation {
+	var vs []Violation
+	for _, e := range w.Log() {
+		if e.Kind != "mq_ev_drop" || !strings.HasPrefix(e.Subject, "conn.") || !strings.HasSuffix(e.Subject, ".token") {
+			continue
+		}
+		cid := e.Subject[5 : len(e.Subject)-6]
+		for _, h := range w.HTTP {
+			if h.CID == cid && h.StartT < e.T && (!h.Done || h.DoneT > e.T) {
+				vs = append(vs, Violation{Property: "C05", Class: "token_event_not_received", Step: e.Step, T: e.T, Conn: -1,
+					Message: fmt.Sprintf("a token event for the connection of %s %s (h%d) was not received although the request was still being served: nothing listened to %s", h.Method, h.URL, h.ID, e.Subject)})
+			}
+		}
+	}
+	return vs
+}
+
 func (m *MonC05) OnEnd(w *World) []Violation {
 	b := BuildAccessBook(w)
-	var vs []Violation
+	vs := tokenEventsNotReceived(w)
 	log := w.Log()
 	for i := range log {
 		e := &log[i]
@@ -832,6 +853,21 @@ func (m *MonC06) OnEnd(w *World) []Violation {
 				for j := tr.T + 1; j < len(log) && rq == nil; j++ {
 					e := &log[j]
 					if e.Kind == "mq_req" && e.Subject == "access."+name && e.CID == c.CID && e.Query == q {
+						// a request another client request (a call) made while the re-check was
+						// still deferred behind held events is not the re-check: its answer
+						// finds the re-check still deferred, and the re-check follows the
+						// release (or is voided by then)
+						if at := func() int {
+							for k := range b.answers {
+								if a := &b.answers[k]; a.ReqT == e.T {
+									return a.T
+								}
+							}
+							return -1
+						}(); at >= 0 && w.stepOfT(at) > w.stepOfT(tr.T) && m.deferredBefore(w.stepOfT(at), c.CID, fullRID) && m.deferredBefore(w.stepOfT(at)+1, c.CID, fullRID) {
+							m.class("request_while_recheck_deferred")
+							continue
+						}
 						if e.T <= from {
 							// requested after the trigger but before the answer that found the
 							// re-check still deferred: it serves if it is still in flight then
